@@ -102,6 +102,22 @@ def validateName (env : Env) (n : String) (j : J) : Except VErr PV :=
       | _ => .error (.wrongType n)
     | .none => .ok (.any j)     -- configured custom scalar types are outside this spec (C07): passed through
 
+/-- does the declaration assign a value (`= None` or `= Field(...)`)? -/
+def hasValue (f : FieldDecl) : Bool := f.alias.isSome || f.discriminator || f.defaultNone
+
+/-- Python class-body semantics for a name annotated twice: the name keeps its first position in
+    `__annotations__`, the LAST annotation wins, and the class attribute (default / `Field(...)`) is the
+    last one that was assigned (a later bare annotation does not delete it). -/
+def addDecl (acc : List FieldDecl) (g : FieldDecl) : List FieldDecl :=
+  if acc.any (·.py == g.py) then
+    acc.map fun f =>
+      if f.py == g.py then
+        (if hasValue g then { g with py := f.py } else { f with ann := g.ann })
+      else f
+  else acc ++ [g]
+
+def mergeDup (fs : List FieldDecl) : List FieldDecl := fs.foldl addDecl []
+
 /-- all fields of a class incl. inherited ones: bases first (left to right as Python's MRO would
     resolve single inheritance chains of generated classes), own declarations override by python name. -/
 def allFields (env : Env) : Nat → String → List FieldDecl
@@ -113,7 +129,8 @@ def allFields (env : Env) : Nat → String → List FieldDecl
       let inherited := c.bases.foldl (fun acc b =>
         let bf := allFields env fuel b
         acc.filter (fun f => !(bf.any (·.py == f.py))) ++ bf) []
-      inherited.filter (fun f => !(c.fields.any (·.py == f.py))) ++ c.fields
+      let own := mergeDup c.fields
+      inherited.filter (fun f => !(own.any (·.py == f.py))) ++ own
 
 /-- `typename__` literal values of a class (own or inherited) -/
 def typenameLiteral (env : Env) (fuel : Nat) (cn : String) : Option (List String) :=
